@@ -435,4 +435,263 @@ theorem hkLinksGo_spec (classic : Bool) (now : Nat) (ls : List (FLink F)) (i : N
       simp only [kaCount, List.countP_append, List.countP_cons] at h1 h2 ⊢
       split at h1 <;> rename_i hc <;> simp only [hc, if_true, if_false, Bool.false_eq_true] <;> omega
 
+/-! ## `handle_housekeeping` around the per-link pass -/
+
+/-- Links handed to the per-link pass: the probing-completion step may reset one grace window. -/
+def hkPre (s : Sys F) (now : Nat) : Reg.Reg × List (FLink F) :=
+  if Reg.isProbing (Reg.clearPendingIfTimedOut s.reg now).1 then
+    if !Reg.isProbing (Reg.checkProbingComplete (Reg.clearPendingIfTimedOut s.reg now).1 now).1 then
+      match (Reg.checkProbingComplete (Reg.clearPendingIfTimedOut s.reg now).1 now).1.target with
+      | some idx =>
+        ((Reg.checkProbingComplete (Reg.clearPendingIfTimedOut s.reg now).1 now).1,
+          s.links.mapIdx fun j l => if j = idx then { l with graceDeadline := now + Conn.STARTUP_GRACE_MS } else l)
+      | none => ((Reg.checkProbingComplete (Reg.clearPendingIfTimedOut s.reg now).1 now).1, s.links)
+    else ((Reg.checkProbingComplete (Reg.clearPendingIfTimedOut s.reg now).1 now).1, s.links)
+  else ((Reg.clearPendingIfTimedOut s.reg now).1, s.links)
+
+def hkLs2 (ls1 : List (FLink F)) (now : Nat) (sends : Reg.DriverSends) :
+    List (FLink F) × List (Nat × Codec.Bytes) :=
+  match sends.reg1 with
+  | some (idx, pkt) =>
+    match ls1[idx]? with
+    | some l => (setAt ls1 idx { l with core := { l.core with lastSent := some now } }, [(l.core.connId, pkt)])
+    | none => (ls1, [])
+  | none => (ls1, [])
+
+def hkLs3 (ls2 : List (FLink F)) (now : Nat) (sends : Reg.DriverSends) :
+    List (FLink F) × List (Nat × Codec.Bytes) :=
+  match sends.broadcastReg2 with
+  | some pkt => (ls2.map fun (l : FLink F) => { l with core := { l.core with lastSent := some now } },
+                 ls2.map fun (l : FLink F) => (l.core.connId, pkt))
+  | none => (ls2, [])
+
+def hkSends (ls1 : List (FLink F)) (reg2 : Reg.Reg) (now : Nat) : Reg.DriverSends :=
+  (Reg.regDriverPendingSends (Reg.updateActiveConnections reg2 (ls1.map (·.core.connected))) now).2
+
+
+/-- The links and registration state after the per-link pass. -/
+def hkMid (s : Sys F) (now : Nat) : List (FLink F) × Reg.Reg × List (Nat × Codec.Bytes) :=
+  hkLinksGo s.cfg.classic now (hkPre s now).2 0 (hkPre s now).1
+
+theorem handleHousekeeping_links (s : Sys F) (now : Nat) :
+    (handleHousekeeping s now).1.links =
+      (hkLs3 (hkLs2 (hkMid s now).1 now (hkSends (hkMid s now).1 (hkMid s now).2.1 now)).1 now
+        (hkSends (hkMid s now).1 (hkMid s now).2.1 now)).1 := rfl
+
+theorem handleHousekeeping_wire (s : Sys F) (now : Nat) :
+    (handleHousekeeping s now).2.wire =
+      (hkMid s now).2.2 ++ (hkLs2 (hkMid s now).1 now (hkSends (hkMid s now).1 (hkMid s now).2.1 now)).2 ++
+      (hkLs3 (hkLs2 (hkMid s now).1 now (hkSends (hkMid s now).1 (hkMid s now).2.1 now)).1 now
+        (hkSends (hkMid s now).1 (hkMid s now).2.1 now)).2 := rfl
+
+/-- `l0` is `l` up to the start-up grace deadline. -/
+def GraceOnly (now : Nat) (l l0 : FLink F) : Prop :=
+  l0 = l ∨ l0 = { l with graceDeadline := now + Conn.STARTUP_GRACE_MS }
+
+omit [Scalar F] in
+theorem hkPre_spec (s : Sys F) (now : Nat) :
+    (hkPre s now).2.length = s.links.length ∧
+    ∀ (j : Nat) l, s.links[j]? = some l → ∃ l0, (hkPre s now).2[j]? = some l0 ∧ GraceOnly now l l0 := by
+  unfold hkPre
+  split
+  · split
+    · split
+      · refine ⟨by simp, ?_⟩
+        intro j l hl
+        rw [List.getElem?_mapIdx, hl]
+        simp only [Option.map_some]
+        split
+        · exact ⟨_, rfl, Or.inr rfl⟩
+        · exact ⟨_, rfl, Or.inl rfl⟩
+      · exact ⟨rfl, fun j l hl => ⟨l, hl, Or.inl rfl⟩⟩
+    · exact ⟨rfl, fun j l hl => ⟨l, hl, Or.inl rfl⟩⟩
+  · exact ⟨rfl, fun j l hl => ⟨l, hl, Or.inl rfl⟩⟩
+
+theorem graceOnly_kaStep {now : Nat} {l l0 l' : FLink F} {w : List (Nat × Codec.Bytes)}
+    (hg : GraceOnly now l l0) (h : KaStep now l0 l' w) : KaStep now l l' w := by
+  rcases hg with rfl | rfl
+  · exact h
+  · refine ⟨h.connId, h.change, ?_⟩
+    intro hc hto
+    apply h.fresh hc
+    unfold FLink.isTimedOut Select.isTimedOut FLink.toSLink at hto ⊢
+    simp only [hc, Bool.not_true, Bool.false_eq_true, if_false] at hto ⊢
+    exact hto
+
+/-- Only `last_sent` may differ. -/
+def SentOnly (l l' : FLink F) : Prop :=
+  l'.lastKeepaliveSent = l.lastKeepaliveSent ∧ l'.core.connId = l.core.connId
+
+omit [Scalar F] in
+theorem getElem?_setAt' (ls : List (FLink F)) (i j : Nat) (x : FLink F) :
+    (setAt ls i x)[j]? = if j = i then (ls[j]?).map (fun _ => x) else ls[j]? := by
+  unfold setAt
+  rw [List.getElem?_mapIdx]
+  split
+  · rfl
+  · cases ls[j]? <;> rfl
+
+omit [Scalar F] in
+theorem hkLs2_spec (ls1 : List (FLink F)) (now : Nat) (sends : Reg.DriverSends) :
+    (hkLs2 ls1 now sends).1.length = ls1.length ∧
+    (∀ (j : Nat) l, ls1[j]? = some l → ∃ l', (hkLs2 ls1 now sends).1[j]? = some l' ∧ SentOnly l l') ∧
+    (∀ x ∈ (hkLs2 ls1 now sends).2, ∃ idx, sends.reg1 = some (idx, x.2)) := by
+  unfold hkLs2
+  split
+  · rename_i idx pkt hs
+    split
+    · rename_i l0 hl0
+      refine ⟨by simp [setAt], ?_, ?_⟩
+      · intro j l hl
+        rw [getElem?_setAt', hl]
+        split
+        · rename_i hj; subst hj
+          rw [hl0] at hl; cases hl
+          exact ⟨_, rfl, rfl, rfl⟩
+        · exact ⟨l, rfl, rfl, rfl⟩
+      · intro x hx
+        simp only [List.mem_cons, List.not_mem_nil, or_false] at hx
+        subst hx
+        exact ⟨idx, hs⟩
+    · exact ⟨rfl, fun j l hl => ⟨l, hl, rfl, rfl⟩, by simp⟩
+  · exact ⟨rfl, fun j l hl => ⟨l, hl, rfl, rfl⟩, by simp⟩
+
+omit [Scalar F] in
+theorem hkLs3_spec (ls2 : List (FLink F)) (now : Nat) (sends : Reg.DriverSends) :
+    (hkLs3 ls2 now sends).1.length = ls2.length ∧
+    (∀ (j : Nat) l, ls2[j]? = some l → ∃ l', (hkLs3 ls2 now sends).1[j]? = some l' ∧ SentOnly l l') ∧
+    (∀ x ∈ (hkLs3 ls2 now sends).2, sends.broadcastReg2 = some x.2) := by
+  unfold hkLs3
+  split
+  · rename_i pkt hs
+    refine ⟨by simp, ?_, ?_⟩
+    · intro j l hl
+      rw [List.getElem?_map, hl]
+      exact ⟨_, rfl, rfl, rfl⟩
+    · intro x hx
+      simp only [List.mem_map] at hx
+      obtain ⟨l, -, rfl⟩ := hx
+      exact hs
+  · exact ⟨rfl, fun j l hl => ⟨l, hl, rfl, rfl⟩, by simp⟩
+
+theorem regDriver_types (r : Reg.Reg) (now : Nat) :
+    (∀ idx pkt, (Reg.regDriverPendingSends r now).2.reg1 = some (idx, pkt) →
+      Codec.getPacketTypeS pkt = some 0x9200) ∧
+    (∀ pkt, (Reg.regDriverPendingSends r now).2.broadcastReg2 = some pkt →
+      Codec.getPacketTypeS pkt = some 0x9201) := by
+  unfold Reg.regDriverPendingSends
+  dsimp only
+  constructor
+  · intro idx pkt h
+    unfold Reg.driverReg1 at h
+    split at h
+    · split at h
+      · split at h
+        · simp only [Option.some.injEq, Prod.mk.injEq] at h
+          rw [← h.2]; exact reg1_type _
+        · simp at h
+      · simp at h
+    · simp at h
+  · intro pkt h
+    unfold Reg.driverBroadcast at h
+    split at h
+    · simp only [Option.some.injEq] at h
+      rw [← h]; exact reg2_type _
+    · simp at h
+
+/-- **Housekeeping tick, per link**: the links keep their positions; link `j` goes `l → l'` with the
+cadence guarantees of `KaStep` against the tick's whole wire output; every keepalive-typed datagram
+of the tick is the frame of a connected, not timed out link built from that link's state at the
+tick; per conn id there are at most two of them per link carrying that id. -/
+theorem handleHousekeeping_spec (s : Sys F) (now : Nat) :
+    (handleHousekeeping s now).1.links.length = s.links.length ∧
+    (∀ (j : Nat) l, s.links[j]? = some l → ∃ l', (handleHousekeeping s now).1.links[j]? = some l' ∧
+      KaStep now l l' (handleHousekeeping s now).2.wire) ∧
+    (∀ x ∈ (handleHousekeeping s now).2.wire, Codec.getPacketTypeS x.2 = some 0x9000 →
+      ∃ l ∈ s.links, x = (l.core.connId, (l.keepalivePacket now).2) ∧ l.core.connected = true ∧
+        l.isTimedOut now = false) ∧
+    (∀ cid, kaCount cid (handleHousekeeping s now).2.wire ≤ 2 * s.links.countP (·.core.connId == cid)) := by
+  rw [handleHousekeeping_links, handleHousekeeping_wire]
+  obtain ⟨p1, p2⟩ := hkPre_spec s now
+  obtain ⟨m1, m2, m3, m4⟩ := hkLinksGo_spec s.cfg.classic now (hkPre s now).2 0 (hkPre s now).1
+  have ht := regDriver_types
+    (Reg.updateActiveConnections (hkMid s now).2.1 ((hkMid s now).1.map (·.core.connected))) now
+  generalize hsd : hkSends (hkMid s now).1 (hkMid s now).2.1 now = sends at *
+  have hsd' : (Reg.regDriverPendingSends
+      (Reg.updateActiveConnections (hkMid s now).2.1 ((hkMid s now).1.map (·.core.connected))) now).2 = sends := hsd
+  rw [hsd'] at ht
+  obtain ⟨a1, a2, a3⟩ := hkLs2_spec (hkMid s now).1 now sends
+  obtain ⟨b1, b2, b3⟩ := hkLs3_spec (hkLs2 (hkMid s now).1 now sends).1 now sends
+  change (hkMid s now).1.length = _ at m1
+  have hnka2 : ∀ x ∈ (hkLs2 (hkMid s now).1 now sends).2, Codec.getPacketTypeS x.2 = some 0x9200 := by
+    intro x hx; obtain ⟨idx, h⟩ := a3 x hx; exact ht.1 idx x.2 h
+  have hnka3 : ∀ x ∈ (hkLs3 (hkLs2 (hkMid s now).1 now sends).1 now sends).2,
+      Codec.getPacketTypeS x.2 = some 0x9201 := by
+    intro x hx; exact ht.2 x.2 (b3 x hx)
+  refine ⟨by rw [b1, a1, m1, p1], ?_, ?_, ?_⟩
+  · intro j l hl
+    obtain ⟨l0, hl0, hg⟩ := p2 j l hl
+    obtain ⟨l1, hl1, hk⟩ := m2 j l0 hl0
+    obtain ⟨l2, hl2, hs2⟩ := a2 j l1 hl1
+    obtain ⟨l3, hl3, hs3⟩ := b2 j l2 hl2
+    refine ⟨l3, hl3, ?_⟩
+    have hk' := graceOnly_kaStep hg hk
+    refine ⟨by rw [hs3.2, hs2.2]; exact hk'.connId, ?_, ?_⟩
+    · rw [hs3.1, hs2.1]
+      refine hk'.change.imp id (fun ⟨h1, h2⟩ => ⟨h1, ?_⟩)
+      exact List.mem_append_left _ (List.mem_append_left _ h2)
+    · intro hc hto
+      rw [hs3.1, hs2.1]
+      exact hk'.fresh hc hto
+  · intro x hx hty
+    rcases List.mem_append.mp hx with hx | hx
+    · rcases List.mem_append.mp hx with hx | hx
+      · rcases m3 x hx with ⟨l0, hl0, rfl, hc, hto⟩ | h | h
+        · obtain ⟨j, hj⟩ := List.mem_iff_getElem?.mp hl0
+          obtain ⟨hlt, -⟩ := List.getElem?_eq_some_iff.mp hj
+          have hlt' : j < s.links.length := by omega
+          obtain ⟨l0', hl0', hg⟩ := p2 j s.links[j] (List.getElem?_eq_getElem hlt')
+          rw [hj] at hl0'; cases hl0'
+          refine ⟨s.links[j], List.getElem_mem hlt', ?_⟩
+          rcases hg with rfl | rfl
+          · exact ⟨rfl, hc, hto⟩
+          · refine ⟨rfl, hc, ?_⟩
+            have hc' : (s.links[j]).core.connected = true := hc
+            unfold FLink.isTimedOut Select.isTimedOut FLink.toSLink at hto ⊢
+            simp only [hc', Bool.not_true, Bool.false_eq_true, if_false] at hto ⊢
+            exact hto
+        · rw [h] at hty; simp at hty
+        · rw [h] at hty; simp at hty
+      · rw [hnka2 x hx] at hty; simp at hty
+    · rw [hnka3 x hx] at hty; simp at hty
+  · intro cid
+    have h0 : kaCount cid (hkLs2 (hkMid s now).1 now sends).2 = 0 := by
+      simp only [kaCount, List.countP_eq_zero]
+      intro x hx; simp [hnka2 x hx]
+    have h1 : kaCount cid (hkLs3 (hkLs2 (hkMid s now).1 now sends).1 now sends).2 = 0 := by
+      simp only [kaCount, List.countP_eq_zero]
+      intro x hx; simp [hnka3 x hx]
+    have h2 := m4 cid
+    have h3 : (hkPre s now).2.countP (·.core.connId == cid) = s.links.countP (·.core.connId == cid) := by
+      have : (hkPre s now).2.map (·.core.connId) = s.links.map (·.core.connId) := by
+        apply List.ext_getElem?
+        intro j
+        rw [List.getElem?_map, List.getElem?_map]
+        cases hj : s.links[j]? with
+        | none =>
+          have : (hkPre s now).2[j]? = none := by
+            rw [List.getElem?_eq_none_iff] at hj ⊢; omega
+          rw [this]
+        | some l =>
+          obtain ⟨l0, hl0, hg⟩ := p2 j l hj
+          rw [hl0]
+          rcases hg with rfl | rfl <;> rfl
+      have e : ∀ ls : List (FLink F), ls.countP (·.core.connId == cid) =
+          (ls.map (·.core.connId)).countP (· == cid) := by
+        intro ls; rw [List.countP_map]; rfl
+      rw [e, e, this]
+    simp only [kaCount, List.countP_append] at h0 h1 h2 ⊢
+    change List.countP _ (hkMid s now).2.2 ≤ _ at h2
+    omega
+
 end Srtla.Keepalive
